@@ -46,6 +46,9 @@ fixed("C16", "cd35c78", "parseDataFields incremented the unknown-field counter f
 fixed("C13", "58857ef", "parseFileIdMsg: the header test before the file_id data record was (b & 0x00) == 0x00 (true for all 256 bytes) and the test before the definition admitted compressed headers 11xxxxxx: a definition/compressed header there was parsed as data of local type b&0x0F",
       "C13-R1-fileid-guards", "parseFileIdMsg/guard-data")
 
+fixed("C12", "3737ee0", "parseTimeStamp stored a local_date_time value into d.timestamp when no reference existed, without updating lastTimeOffset: a local wall-clock reading became the UTC reference of following compressed-timestamp records and local fields",
+      "C12-R2-who-rebases", "parseTimeStamp/timestamp-store-1")
+
 json.dump({
     "comment": "Genuine defects of tormoder/fit. status=known: recorded, not repaired (reason in DESIGN.md section 1); the check prints KNOWN-FINDING for exactly that (property, rule, key). status=fixed: repaired by the named fix: commit in /repo; suppresses nothing. This file is never written at run time.",
     "findings": F,
